@@ -206,6 +206,11 @@ def mutate(rng, rows):
             for r in rows:
                 if r and r[0].strip() and not r[0].startswith("#"):
                     r.append(r[-1] if rng.random() < 0.9 else "")
+    if rng.random() < 0.2:
+        # column names are free text: names holding characters that mean something to str.format / % formatting
+        for r in rows:
+            if r and r[0].strip() == "name" and len(r) > 1:
+                r[rng.randrange(1, len(r))] = rng.choice(["{}", "{0}", "{lossy}", "set{8x4}", "open{", "close}", "%s", "%d%%", "{name}", "{0!r:>{1}}", "a{b}c"])
     return rows
 
 
